@@ -268,7 +268,13 @@ pub fn gen_driver(prop: &str, rng: &mut Rng, sh: &mut Shards, out: &str, thoroug
             let mov8 = |r: &'static str, v: u8| Item::Ins(Ins::Mov { w: 8, dst: Opnd::Reg8(r), src: Opnd::Imm(v as i32) });
             let setseg = |s: &'static str, v: u16| vec![Item::Ins(Ins::Mov { w: 16, dst: Opnd::Reg16("ax"), src: Opnd::Imm(v as i32) }), Item::Ins(Ins::Mov { w: 16, dst: Opnd::Sreg(s), src: Opnd::Reg16("ax") })];
             let line_of = |rng: &mut Rng, len: usize, newline: bool| -> ScriptLine {
-                let raw: String = (0..len).map(|i| (b'a' + ((i as u64 + rng.below(26)) % 26) as u8) as char).collect();
+                // one line in four mixes in multi-byte characters (2, 3 and 4 bytes of UTF-8): `len` then counts characters,
+                // so that buffer capacities fall inside a character as well as between characters
+                let wide = rng.chance(1, 4);
+                let raw: String = (0..len).map(|i| {
+                    if wide && rng.chance(1, 2) { *rng.pick(&['\u{e9}', '\u{df}', '\u{20ac}', '\u{1f600}', '\u{a0}']) }
+                    else { (b'a' + ((i as u64 + rng.below(26)) % 26) as u8) as char }
+                }).collect();
                 ScriptLine { raw, newline, cls: "data", what: None }
             };
             // every supported service under random registers / buffers / stdin shapes
@@ -447,6 +453,43 @@ pub fn gen_driver(prop: &str, rng: &mut Rng, sh: &mut Shards, out: &str, thoroug
                 let mut lay = Layout::random(rng);
                 lay.label_same_line = false;
                 progs.push((p, lay));
+            }
+            // every kind of item laid out across the end of the 1 MB space (physical FFFFFh -> 00000h) and across the
+            // end of a segment's 64 KiB, at every alignment: a pad brings the location counter to 1..3 bytes before the
+            // boundary, the item straddles it, a labelled item follows and everything is read back
+            let kinds: Vec<(&'static str, DataForm)> = vec![
+                ("dw", DataForm::Num(0x1234)), ("dw", DataForm::Num(-2)), ("db", DataForm::Num(0x5A)),
+                ("dw", DataForm::Fill(0x4321, 2)), ("db", DataForm::Fill(0x77, 4)), ("dw", DataForm::Zero(2)), ("db", DataForm::Zero(4)),
+                ("dw", DataForm::Str("ab".into())), ("db", DataForm::Str("wxyz".into())),
+            ];
+            for (seg, room) in [(0xFFFFu32, 16u32), (0xFFFE, 32), (0xFFF0, 256), (0xF001, 0xFFF0)] {
+                for (dir, form) in &kinds {
+                    for before in 0..4u32 {
+                        let mut data: Vec<DataItem> = vec![DataItem::Set(seg)];
+                        // non-zero bytes where the wrapped part must land
+                        let mut pre: Vec<DataItem> = vec![DataItem::Set(0), DataItem::Def { label: None, dir: "db", form: DataForm::Fill(0xEE, 6) }];
+                        pre.append(&mut data);
+                        let mut data = pre;
+                        data.push(DataItem::Def { label: Some("pad_q".into()), dir: "db", form: if room > 300 { DataForm::Zero(room - before) } else { DataForm::Fill(0x11, room - before) } });
+                        data.push(DataItem::Def { label: Some("item_A".into()), dir, form: form.clone() });
+                        data.push(DataItem::Def { label: Some("after_w".into()), dir: "dw", form: DataForm::Num(0x5678) });
+                        let w: u8 = if *dir == "db" { 8 } else { 16 };
+                        let mut items: Vec<Item> = vec![Item::Label("start".into())];
+                        items.push(Item::Ins(Ins::Mov { w: 16, dst: Opnd::Reg16("ax"), src: Opnd::Imm(seg as i32) }));
+                        items.push(Item::Ins(Ins::Mov { w: 16, dst: Opnd::Sreg("ds"), src: Opnd::Reg16("ax") }));
+                        let r = if w == 8 { Opnd::Reg8("bl") } else { Opnd::Reg16("bx") };
+                        items.push(Item::Ins(Ins::Mov { w, dst: r, src: Opnd::Label { name: "item_A".into(), off: 0 } }));
+                        items.push(Item::Ins(Ins::Mov { w: 16, dst: Opnd::Reg16("cx"), src: Opnd::Offset { name: "item_A".into(), off: 0 } }));
+                        items.push(Item::Ins(Ins::Mov { w: 16, dst: Opnd::Reg16("dx"), src: Opnd::Label { name: "after_w".into(), off: 0 } }));
+                        items.push(Item::Ins(Ins::Mov { w: 16, dst: Opnd::Reg16("si"), src: Opnd::Offset { name: "after_w".into(), off: 0 } }));
+                        items.push(Item::Ins(Ins::Print { what: PrintWhat::Range(0, 7) }));
+                        items.push(Item::Ins(Ins::Print { what: PrintWhat::Range(0xFFFF8, 0xFFFFF) }));
+                        let p = Program { data, items, interp: false, stdin: Vec::new(), note: "data-wrap".into() };
+                        let mut lay = Layout::random(rng);
+                        lay.label_same_line = false;
+                        progs.push((p, lay));
+                    }
+                }
             }
         }
         "C14" => {
@@ -928,9 +971,12 @@ fn pathological(rng: &mut Rng, thorough: bool) -> Vec<(String, Vec<u8>)> {
     for _ in 0..(big / 10) { comments.push_str("; c\n"); }
     comments.push_str("mov ax,\n");
     v.push(("error-after-many-comment-lines".into(), comments.into_bytes()));
-    let depth = if thorough { 1000 } else { 64 };
-    let (chain, _) = crate::checks2::chain_source(depth);
-    v.push((format!("macro-chain-{}", depth), chain.into_bytes()));
+    // macro chains around the nesting limit and far beyond it (each level used to re-enter the parser on the native stack)
+    let depths: &[usize] = if thorough { &[64, 128, 129, 400, 1000, 4096] } else { &[64, 128, 129, 400, 1000] };
+    for depth in depths {
+        let (chain, _) = crate::checks2::chain_source(*depth);
+        v.push((format!("macro-chain-{}", depth), chain.into_bytes()));
+    }
     let nested: String = std::iter::repeat("[").take(big / 10).collect();
     v.push(("deep-brackets".into(), format!("start:\nmov ax, word {}\n", nested).into_bytes()));
     let _ = rng;
